@@ -39,13 +39,18 @@ FLOORS = {"law:other=base": 20, "law:this=base": 20, "law:identical": 15, "law:d
 ASSUMPTIONS = [
     "the law's precondition is verified by observation (snapshots of BASE/THIS/OTHER) before the merge; cases whose generated deltas do not satisfy it are discarded",
     "disjoint = every path touched by a delta lies strictly inside that side's own top-level directory; or (file-level flavour, 35 %) the deltas only "
-    "edit / chmod / add files and no path is changed on both sides",
+    "edit / chmod / add files and no path is changed on both sides; or (entry-level flavour, 2a only) no file id is changed on both sides and the union "
+    "of the two entry sets is a well-formed tree (every parent present and a directory, no two entries with one name in one directory, no loop) - "
+    "there the expected tree is computed from (parent id, name, kind, content, exec) per file id, so paths may overlap freely",
     "criss-cross cases: both LCAs and the unique ancestor all have BASE's tree, so the laws are unambiguous about what BASE is",
     "git trees: directories are not versioned, so the disk comparison ignores directories there",
 ]
 
 # the file-level flavour of the disjoint law: content, exec bit, new files and symlinks only (no renames / removals / kind changes)
 W_FILES = {"mkfile": 4, "symlink": 1, "add": 6, "edit": 8, "chmod": 4}
+# the entry-level (file id) flavour of the disjoint law, bzr trees: THIS restructures, OTHER touches entries in place
+W_RESTRUCTURE = {"rename": 8, "mkdir": 2, "mkfile": 3, "add": 6, "symlink": 1}
+W_TOUCH = {"edit": 8, "chmod": 4, "mkfile": 4, "add": 6, "rename": 3}
 MERGERS = ("Merge3Merger", "WeaveMerger", "LCAMerger")
 LAWS = ("other=base", "this=base", "identical", "disjoint")
 SUFFIXES = (".BASE", ".THIS", ".OTHER", ".moved")
@@ -91,15 +96,21 @@ def _op_paths(op):
     return [op[k] for k in ("path", "src", "dst") if k in op]
 
 
-def _delta(rng, wt, names, nops, weights, inside=None, idtag="", avoid=()):
+def _delta(rng, wt, names, nops, weights, inside=None, idtag="", avoid=(), motif=False, motif_log=None):
     """Apply up to nops model-legal random ops (confined to the subtree `inside`); returns (ops, clean).
 
     idtag keeps the file ids of entries added on the two sides apart (the model numbers new ids from the
     size of the tree, so two deltas starting from the same BASE would otherwise mint the same id).
     """
-    w = gen.world_from_tree(wt)
     ops = []
     clean = True
+    if motif:
+        kind, mops, clean = _apply_motif(rng, wt, names, inside, idtag)
+        ops += mops
+        if kind and motif_log is not None:
+            motif_log.append(kind if clean else kind + ":refused")
+    w = gen.world_from_tree(wt)
+    nops += len(ops)
     for _ in range(nops * 14):
         if len(ops) >= nops:
             break
@@ -122,6 +133,133 @@ def _delta(rng, wt, names, nops, weights, inside=None, idtag="", avoid=()):
         w.apply(op)
         ops.append(op)
     return ops, clean
+
+
+def _free_name(rng, w, parent_path, names, kind):
+    pool = list(names.dirs if kind == "directory" else names.files) + ["old", "tmp-x", "kept"]
+    rng.shuffle(pool)
+    for n in pool:
+        q = (parent_path + "/" + n) if parent_path else n
+        if w.free(q):
+            return q
+    return None
+
+
+def _motif(rng, w, names, inside=None, idtag=""):
+    """A structured op sequence the random generator almost never produces: a path that comes to name a
+    different entry than before (directory renamed away and re-created, sibling directories swapped, a file
+    renamed onto the path of a removed file, two files swapped through a temporary name), combined with
+    in-place renames, additions and content edits below / at those paths.  Returns (kind, [op, ...]) or None."""
+    from vf.model import ROOT
+
+    def ok(path):
+        return inside is None or path.startswith(inside + "/")
+
+    def kids(i, kind):
+        return sorted(c for c in w.children(i) if w.ents[c].kind == kind and not w.ents[c].missing)
+
+    live = {i: e for i, e in w.ents.items() if i != ROOT and not e.missing and not gen._under_missing(w, i) and not e.kc and ok(w.path(i))}
+    dirs = sorted(i for i, e in live.items() if e.kind == "directory")
+    files = sorted(i for i, e in live.items() if e.kind == "file")
+    cands = []
+    for d in dirs:
+        if kids(d, "file"):
+            cands.append(("dir-recreate", d))
+        sib = [x for x in dirs if x != d and w.ents[x].parent == w.ents[d].parent and (kids(x, "file") or kids(d, "file"))]
+        if sib:
+            cands.append(("dir-swap", d))
+    for f in files:
+        others = [g for g in files if g != f]
+        if others:
+            cands.append(("file-replace", f))
+            cands.append(("file-swap", f))
+    if not cands:
+        return None
+    kinds = sorted({k for k, _ in cands})
+    kind = rng.choices(kinds, [2 if k.startswith("dir-") else 1 for k in kinds])[0]
+    a = rng.choice([x for k, x in cands if k == kind])
+    ops = []
+    pa = w.path(a)
+    parent = pa.rpartition("/")[0]
+
+    def content():
+        return gen.gen_content(rng, hostile=False) or b"motif\n"
+
+    if kind == "dir-recreate":
+        moved = _free_name(rng, w, parent, names, "directory")
+        if moved is None or not ok(moved):
+            return None
+        f = rng.choice(kids(a, "file"))
+        fname = w.ents[f].name
+        ops.append({"op": "rename", "src": pa, "dst": moved})
+        ops.append({"op": "mkdir", "path": pa})
+        ops.append({"op": "add", "path": pa, "id": idtag + w.new_id("redir")})
+        fresh = rng.choice(names.files)
+        ops.append({"op": "mkfile", "path": pa + "/" + fresh, "content": content()})
+        ops.append({"op": "add", "path": pa + "/" + fresh, "id": idtag + w.new_id(fresh)})
+        newname = rng.choice([n for n in names.files + ["kernel"] if n != fname and not any(w.ents[c].name == n for c in w.children(a))])
+        ops.append({"op": "rename", "src": moved + "/" + fname, "dst": moved + "/" + newname})
+        if rng.random() < 0.5:
+            ops.append({"op": "edit", "path": moved + "/" + newname, "content": content()})
+    elif kind == "dir-swap":
+        sib = [x for x in dirs if x != a and w.ents[x].parent == w.ents[a].parent and (kids(x, "file") or kids(a, "file"))]
+        b = rng.choice(sib)
+        pb = w.path(b)
+        tmp = _free_name(rng, w, parent, names, "directory")
+        if tmp is None or not ok(tmp):
+            return None
+        ops += [{"op": "rename", "src": pa, "dst": tmp}, {"op": "rename", "src": pb, "dst": pa}, {"op": "rename", "src": tmp, "dst": pb}]
+        # entry a now lives at pb, entry b at pa
+        for ent, where in ((a, pb), (b, pa)):
+            fk = kids(ent, "file")
+            r = rng.random()
+            if fk and r < 0.6:
+                f = rng.choice(fk)
+                fname = w.ents[f].name
+                newname = rng.choice([n for n in names.files + ["kernel"] if n != fname and not any(w.ents[c].name == n for c in w.children(ent))])
+                ops.append({"op": "rename", "src": where + "/" + fname, "dst": where + "/" + newname})
+            else:
+                fresh = rng.choice([n for n in names.files + ["fresh"] if not any(w.ents[c].name == n for c in w.children(ent))])
+                ops.append({"op": "mkfile", "path": where + "/" + fresh, "content": content()})
+                ops.append({"op": "add", "path": where + "/" + fresh, "id": idtag + w.new_id(fresh)})
+    else:
+        # prefer a partner whose executable bit differs
+        others = [g for g in files if g != a]
+        diff = [g for g in others if w.ents[g].exec != w.ents[a].exec]
+        b = rng.choice(diff if diff and rng.random() < 0.8 else others)
+        pb = w.path(b)
+        if kind == "file-replace":
+            # b takes over a's path (a is removed) and gets new content, its own exec bit untouched
+            ops += [{"op": "remove", "path": pa}, {"op": "rename", "src": pb, "dst": pa}, {"op": "edit", "path": pa, "content": content()}]
+        else:
+            tmp = _free_name(rng, w, parent, names, "file")
+            if tmp is None or not ok(tmp):
+                return None
+            ops += [{"op": "rename", "src": pa, "dst": tmp}, {"op": "rename", "src": pb, "dst": pa}, {"op": "rename", "src": tmp, "dst": pb}]
+            ops.append({"op": "edit", "path": rng.choice([pa, pb]), "content": content()})
+            if rng.random() < 0.5:
+                ops.append({"op": "edit", "path": pb if ops[-1]["path"] == pa else pa, "content": content()})
+    return kind, ops
+
+
+def _apply_motif(rng, wt, names, inside=None, idtag=""):
+    """Apply one motif to wt; returns (kind or None, applied ops, clean)."""
+    w = gen.world_from_tree(wt)
+    try:
+        m = _motif(rng, w, names, inside, idtag)
+    except (IndexError, KeyError, ValueError):
+        m = None
+    if m is None:
+        return None, [], True
+    kind, ops = m
+    done = []
+    for op in ops:
+        try:
+            gen.apply_real(wt, op)
+        except Exception:
+            return kind, done, False
+        done.append(op)
+    return kind, done, True
 
 
 def _replay(wt, ops):
@@ -164,7 +302,7 @@ def _seed(rng, wt, names, git):
         for f in rng.sample(names.files, rng.randint(1, 3)):
             with open(os.path.join(base, t, f), "wb") as fh:
                 fh.write(gen.gen_content(rng, hostile=False) or b"seed\n")
-            if rng.random() < 0.25:
+            if rng.random() < 0.4:
                 os.chmod(os.path.join(base, t, f), 0o755)
         if rng.random() < 0.6:
             sub = rng.choice([d for d in names.dirs if d != t] or names.dirs)
@@ -218,6 +356,54 @@ def _diff(a, b, limit=5):
 
 def _nodirs(d):
     return {p: v for p, v in d.items() if v[0] != "directory"}
+
+
+def _entries(snap):
+    """{file_id: (parent_file_id, name, kind, content, exec)} of a snapshot with file ids (None if it has none / missing files)."""
+    ids = {"": "ROOT"}
+    out = {}
+    for p in sorted(snap, key=lambda q: q.count("/")):
+        kind, content, ex, fid = snap[p]
+        if fid is None or kind is None:
+            return None
+        ids[p] = fid
+        parent, _, name = p.rpartition("/")
+        out[fid] = (ids[parent], name, kind, content, ex)
+    return out
+
+
+def _tree_of(entries):
+    """The snapshot {path: (kind, content, exec, file_id)} the entry set describes, or None if it is not a tree
+    (missing / non-directory parent, two entries with one name in one directory, parent loop)."""
+    seen = set()
+    paths = {}
+
+    def path(fid, depth=0):
+        if fid == "ROOT":
+            return ""
+        if fid in paths:
+            return paths[fid]
+        if depth > 40 or fid not in entries:
+            return None
+        parent, name = entries[fid][0], entries[fid][1]
+        if parent != "ROOT" and (parent not in entries or entries[parent][2] != "directory"):
+            return None
+        pp = path(parent, depth + 1)
+        if pp is None:
+            return None
+        paths[fid] = (pp + "/" + name) if pp else name
+        return paths[fid]
+
+    out = {}
+    for fid, (parent, name, kind, content, ex) in entries.items():
+        if (parent, name) in seen:
+            return None
+        seen.add((parent, name))
+        p = path(fid)
+        if p is None:
+            return None
+        out[p] = (kind, content, ex, fid)
+    return out
 
 
 def _criss_cross(twt, owt, git):
@@ -301,10 +487,11 @@ def _case(ctx):
     uncommitted = law != "this=base" and rng.random() < 0.45
     pointless_tip = rng.random() < 0.5  # the unchanged side: same revision as BASE, or a new revision with BASE's tree
     by_files = law == "disjoint" and rng.random() < 0.35
+    by_ids = law == "disjoint" and not by_files and not git and rng.random() < 0.45
     root = ctx.tmp("c17")
     log = {"law": law, "format": fmt, "criss_cross": criss, "this_uncommitted": uncommitted}
     if law == "disjoint":
-        log["disjoint_by"] = "files" if by_files else "subtrees"
+        log["disjoint_by"] = "files" if by_files else ("file-ids" if by_ids else "subtrees")
     ctx.info["case"] = log
 
     # ---- BASE and the two branches
@@ -338,13 +525,17 @@ def _case(ctx):
     n1 = rng.randint(1, 6)
     n2 = rng.randint(1, 6)
     ops1 = ops2 = []
+    # structured sequences (path reuse: directory re-created / swapped, file renamed onto a vacated path) lead the delta
+    m1, m2 = rng.random() < 0.45, rng.random() < 0.45
+    mlog = []
+    log["motifs"] = mlog
     try:
         if law == "other=base":
-            ops1, _ = _delta(rng, twt, names, n1, w_this)
+            ops1, _ = _delta(rng, twt, names, n1, w_this, motif=m1, motif_log=mlog)
         elif law == "this=base":
-            ops2, _ = _delta(rng, owt, names, n2, weights)
+            ops2, _ = _delta(rng, owt, names, n2, weights, motif=m2, motif_log=mlog)
         elif law == "identical":
-            ops1, clean = _delta(rng, twt, names, n1, w_this)
+            ops1, clean = _delta(rng, twt, names, n1, w_this, motif=m1, motif_log=mlog)
             if not clean:
                 ctx.discard("identical: an op was refused half-way")
             _replay(owt, ops1)
@@ -353,10 +544,21 @@ def _case(ctx):
             # disjoint sets of *files* anywhere in the tree: no structural ops, the second delta avoids the first one's paths
             ops1, _ = _delta(rng, twt, names, n1, W_FILES, idtag="t-")
             ops2, _ = _delta(rng, owt, names, n2, W_FILES, idtag="o-", avoid={p for o in ops1 for p in _op_paths(o)})
+        elif by_ids:
+            # disjoint sets of *entries* (file ids) anywhere in the tree, paths may overlap: THIS restructures (renames, swaps,
+            # re-created directories, new entries), OTHER edits / chmods / renames in place / adds below the same directories
+            ops1, _ = _delta(rng, twt, names, n1, W_RESTRUCTURE, idtag="t-", motif=True, motif_log=mlog)
+            with twt.lock_write():
+                _add_all(twt, [5000])
+            # OTHER keeps away from the entries THIS changed (their BASE paths are still OTHER's paths)
+            et_now = _entries(observe.snap_tree(twt)) or {}
+            eb_now = _entries(base_snap) or {}
+            taken = {p for p, v in base_snap.items() if et_now.get(v[3]) != eb_now.get(v[3])}
+            ops2, _ = _delta(rng, owt, names, n2, W_TOUCH, idtag="o-", avoid=taken, motif_log=mlog)
         else:
             log["A"], log["B"] = A, B
-            ops1, _ = _delta(rng, twt, names, n1, w_this, inside=A, idtag="t-")
-            ops2, _ = _delta(rng, owt, names, n2, weights, inside=B, idtag="o-")
+            ops1, _ = _delta(rng, twt, names, n1, w_this, inside=A, idtag="t-", motif=m1, motif_log=mlog)
+            ops2, _ = _delta(rng, owt, names, n2, weights, inside=B, idtag="o-", motif=m2, motif_log=mlog)
         log["ops_this"] = [gen.op_json(o) for o in ops1]
         log["ops_other"] = [gen.op_json(o) for o in ops2]
         n = 5
@@ -391,6 +593,26 @@ def _case(ctx):
         pre = this_snap == base_snap and _nodirs(this_disk) == _nodirs(_materialize(base_snap))
     elif law == "identical":
         pre = this_snap == other_snap
+    elif by_ids:
+        eb, et, eo = _entries(base_snap), _entries(this_snap), _entries(other_snap)
+        merged = {}
+        pre = eb is not None and et is not None and eo is not None and set(this_disk) == set(_materialize(this_snap))
+        if not pre:
+            ctx.hist("ids-precondition:missing-or-unversioned-in-this")
+        if pre:
+            for fid in set(eb) | set(et) | set(eo):
+                b, t, o = eb.get(fid), et.get(fid), eo.get(fid)
+                if t != b and o != b:
+                    pre = False  # the same entry changed on both sides
+                    ctx.hist("ids-precondition:entry-changed-on-both-sides")
+                    break
+                v = o if t == b else t
+                if v is not None:
+                    merged[fid] = v
+        want_by_ids = _tree_of(merged) if pre else None
+        if pre and want_by_ids is None:
+            ctx.hist("ids-precondition:union-is-not-a-tree")
+        pre = want_by_ids is not None
     elif by_files:
         allp = set(this_snap) | set(other_snap) | set(base_snap)
         changed_o = {p for p in allp if other_snap.get(p) != base_snap.get(p)}
@@ -408,6 +630,8 @@ def _case(ctx):
         want_tree, want_disk = this_snap, this_disk
     elif law == "this=base":
         want_tree, want_disk = other_snap, _materialize(other_snap)
+    elif by_ids:
+        want_tree, want_disk = want_by_ids, _materialize(want_by_ids)
     elif by_files:
         want_tree, want_disk = dict(this_snap), dict(this_disk)
         for p in changed_o:
@@ -426,6 +650,10 @@ def _case(ctx):
     kinds2 = [o["op"] for o in ops2]
     for k in set(kinds1 + kinds2):
         ctx.hist("op:" + k)
+    for k in mlog:
+        ctx.hist("motif:%s:%s" % (law, k))
+        if not k.endswith(":refused"):
+            ctx.count("motif:" + k)
     ctx.hist("shape:%s%s%s" % (fmt, ":criss-cross" if criss else "", ":uncommitted" if uncommitted else ""))
 
     mergers = MERGERS if not git else MERGERS[:1]
@@ -437,7 +665,7 @@ def _case(ctx):
         driver = "merge_from_branch" if rng.random() < 0.35 else "from_revision_ids"
         detail = dict(log, merger=mname, driver=driver)
         ctx.count("law:" + law)
-        ctx.hist("merge:%s%s:%s:%s" % (law, "-files" if by_files else "", mname, fmt))
+        ctx.hist("merge:%s%s:%s:%s" % (law, "-files" if by_files else ("-ids" if by_ids else ""), mname, fmt))
         try:
             cooked, _merger = _do_merge(wt, ob, other_rev, mt, driver, uncommitted)
         except PointlessMerge:
